@@ -106,6 +106,7 @@ CONFIGS = (
     dict(sessions=0, fail=0x500),
     dict(sessions=2, fail=0x98E),
     dict(sessions=0, session_tag=True),
+    dict(sessions=5, decrypt=True, encrypt=True),
 )
 
 
